@@ -36,8 +36,17 @@ func (f *indexedField) UnmarshalJSON(data []byte) (err error) {
 	if err = dec.Decode(&tuple); err != nil {
 		return err
 	}
+	if len(tuple) != 2 {
+		return fmt.Errorf("indexed field must be a [value, id] tuple, got %s", data)
+	}
+
+	id, ok := tuple[1].(json.Number)
+	if !ok {
+		return fmt.Errorf("indexed field id must be a number, got %s", data)
+	}
+
 	f.Value = tuple[0]
-	f.ObjectId, err = strconv.ParseUint(tuple[1].(json.Number).String(), 10, 64)
+	f.ObjectId, err = strconv.ParseUint(id.String(), 10, 64)
 	return err
 }
 
@@ -81,26 +90,35 @@ func newIndexedField(value interface{}, objid uint64) (*indexedField, error) {
 	return &indexedField{value, objid}, err
 }
 
-func (f *indexedField) valueTypeFromString(t string) {
-	var err error
+func (f *indexedField) valueTypeFromString(t string) (err error) {
+	var num json.Number
+	var ok bool
 
 	// numbers have been unmarshaled as json.Number so
 	// that integers do not lose precision
 	switch t {
-	case "float64":
-		f.Value, err = f.Value.(json.Number).Float64()
-	case "int64":
-		f.Value, err = f.Value.(json.Number).Int64()
-	case "uint64":
-		f.Value, err = strconv.ParseUint(f.Value.(json.Number).String(), 10, 64)
-	case "string":
-	default:
-		panic(fmt.Errorf("%w %s", ErrUnknownKeyType, t))
+	case "float64", "int64", "uint64":
+		if num, ok = f.Value.(json.Number); !ok {
+			return fmt.Errorf("%w %T, expecting a number to cast to %s", ErrUnknownKeyType, f.Value, t)
+		}
 	}
 
-	if err != nil {
-		panic(err)
+	switch t {
+	case "float64":
+		f.Value, err = num.Float64()
+	case "int64":
+		f.Value, err = num.Int64()
+	case "uint64":
+		f.Value, err = strconv.ParseUint(num.String(), 10, 64)
+	case "string":
+		if _, ok = f.Value.(string); !ok {
+			err = fmt.Errorf("%w %T, expecting a string", ErrUnknownKeyType, f.Value)
+		}
+	default:
+		err = fmt.Errorf("%w %s", ErrUnknownKeyType, t)
 	}
+
+	return
 }
 
 func (f *indexedField) valueTypeString() string {
